@@ -529,7 +529,13 @@ func runR07_5(c *Ctx, r *R) {
 	if f := r.Need("mpx", "channelState.decrementSendWindow"); f != nil {
 		key := fnKey(f) + "/reload-after-wake"
 		// the loop may live in a helper that decrementSendWindow hands over to (awaitSendWindow)
-		if len(fieldMethodCalls(f, "sendWindow", "Load")) == 0 {
+		ownSelect := false
+		allInstrs(f, func(i ssa.Instruction) {
+			if s2, ok := i.(*ssa.Select); ok && s2.Blocking {
+				ownSelect = true
+			}
+		})
+		if len(fieldMethodCalls(f, "sendWindow", "Load")) == 0 && !ownSelect {
 			for _, call := range callsIn(f, false) {
 				if h := call.Common().StaticCallee(); h != nil && h.Blocks != nil && h.Pkg == f.Pkg && len(fieldMethodCalls(h, "sendWindow", "Load")) > 0 && len(fieldMethodCalls(h, "sendWindow", "Add")) > 0 {
 					f = h
